@@ -1118,3 +1118,99 @@ def expand_generator_scopes(trees: Dict[str, ast.Module]) -> List[str]:
             if any(cls.name in a for a in applied):
                 cls.body = [f for f in cls.body if not (isinstance(f, ast.FunctionDef) and f.name in gens)]
     return applied
+
+
+# ---------------------------------------------------------------------------------------------------- _driver(lambda t: t.clone())
+def specialise_lambda_arguments(trees: Dict[str, ast.Module]) -> List[str]:
+    """A private function / method (defined once in the package) that only CALLS one of its parameters - or hands it on to
+    itself - and that receives a ``lambda`` for it at a call site is copied for that call site, the lambda applied where the
+    parameter was called (beta reduction; single-expression lambdas with plain positional parameters, arguments that are
+    names / attributes / constants)::
+
+        def _apply(self, fn): ... fn(arg) ... arg._apply(fn) ...          def _apply__fn1(self, fn): ... arg.clone() ... arg._apply__fn1(fn)
+        return self._apply(lambda tsr: tsr.clone())                 ->    return self._apply__fn1(lambda tsr: tsr.clone())
+
+    so that a shared driver is analysed once per tensor function it is used with (clone's copy is not judged by detach's
+    view).  Call sites that pass anything else keep the original."""
+    applied: List[str] = []
+    defs: Dict[str, List[Tuple[str, list, ast.FunctionDef]]] = {}
+    for mod, tree in trees.items():
+        for holder in [tree] + [n for n in ast.walk(tree) if isinstance(n, ast.ClassDef)]:
+            for st in holder.body:
+                if isinstance(st, ast.FunctionDef) and st.name.startswith("_") and not st.name.startswith("__"):
+                    defs.setdefault(st.name, []).append((mod, holder.body, st))
+    counter = 0
+    for name, lst in sorted(defs.items()):
+        if len(lst) != 1:
+            continue
+        mod, container, f = lst[0]
+        a = f.args
+        if a.vararg or a.kwarg or a.posonlyargs or a.kwonlyargs:
+            continue
+        params = [x.arg for x in a.args]
+        is_method = container is not trees[mod].body and not any(
+            isinstance(d, ast.Name) and d.id == "staticmethod" for d in f.decorator_list)
+        for pi, p in enumerate(params):
+            if is_method and pi == 0:
+                continue
+            uses = [n for n in ast.walk(f) if isinstance(n, ast.Name) and n.id == p and isinstance(n.ctx, ast.Load)]
+            if not uses or any(isinstance(n, ast.Name) and n.id == p and isinstance(n.ctx, ast.Store) for n in ast.walk(f)):
+                continue
+            called = {id(n.func) for n in ast.walk(f) if isinstance(n, ast.Call) and isinstance(n.func, ast.Name) and n.func.id == p}
+            apos = pi - (1 if is_method else 0)
+            handed_on = set()
+            for n in ast.walk(f):
+                if isinstance(n, ast.Call) and (n.func.attr if isinstance(n.func, ast.Attribute) else getattr(n.func, "id", None)) == name \
+                        and apos < len(n.args) and isinstance(n.args[apos], ast.Name) and n.args[apos].id == p:
+                    handed_on.add(id(n.args[apos]))
+            if not called or any(id(u) not in called and id(u) not in handed_on for u in uses):
+                continue
+            # call sites outside f that pass a lambda
+            for mod2, tree2 in trees.items():
+                for n in ast.walk(tree2):
+                    if not isinstance(n, ast.Call) or any(n is x for x in ast.walk(f)):
+                        continue
+                    cname = n.func.attr if isinstance(n.func, ast.Attribute) else getattr(n.func, "id", None)
+                    if cname != name or apos >= len(n.args) or not isinstance(n.args[apos], ast.Lambda):
+                        continue
+                    lam = n.args[apos]
+                    la = lam.args
+                    if la.vararg or la.kwarg or la.kwonlyargs or la.defaults or la.posonlyargs:
+                        continue
+                    lparams = [x.arg for x in la.args]
+                    counter += 1
+                    new_name = f"{name}__fn{counter}"
+                    g = copy.deepcopy(f)
+                    g.name = new_name
+                    ok = True
+
+                    class B(ast.NodeTransformer):
+                        def visit_Call(self, c: ast.Call):
+                            nonlocal ok
+                            self.generic_visit(c)
+                            if isinstance(c.func, ast.Name) and c.func.id == p:
+                                if c.keywords or len(c.args) != len(lparams) or not all(
+                                        isinstance(x, (ast.Name, ast.Attribute, ast.Constant)) for x in c.args):
+                                    ok = False
+                                    return c
+                                body = _SubstNames({q: x for q, x in zip(lparams, c.args)}).visit(copy.deepcopy(lam.body))
+                                return ast.copy_location(body, c)
+                            fn_ = c.func
+                            if (fn_.attr if isinstance(fn_, ast.Attribute) else getattr(fn_, "id", None)) == name:
+                                if isinstance(fn_, ast.Attribute):
+                                    fn_.attr = new_name
+                                else:
+                                    fn_.id = new_name
+                            return c
+
+                    g = B().visit(g)
+                    if not ok:
+                        continue
+                    ast.fix_missing_locations(g)
+                    container.insert(container.index(f) + 1, g)
+                    if isinstance(n.func, ast.Attribute):
+                        n.func.attr = new_name
+                    else:
+                        n.func.id = new_name
+                    applied.append(f"{mod2}: call of {name} at line {n.lineno} with a lambda for `{p}` specialised as {new_name}")
+    return applied
